@@ -26,6 +26,7 @@ PROFILE_MODULES = {
     "C11": "dsim.profiles.addressing",
     "C12": "dsim.profiles.merge",
     "C15": "dsim.profiles.look",
+    "C16": "dsim.profiles.geometry",
     "C17": "dsim.profiles.damage",
     "C19": "dsim.profiles.names",
 }
